@@ -65,7 +65,7 @@ Proof.
   - destruct b as [|x b']; [cbn in H; inversion H; exists []; split; reflexivity|].
     cbn [default_loop] in H.
     set (bb := x :: b') in *.
-    set (mx := if g i >=? Zlength bb then Zlength bb else g i) in *.
+    set (mx := if fst (g i) >=? Zlength bb then Zlength bb else fst (g i)) in *.
     destruct (take mx bb) as [[chunk rest]|] eqn:T.
     + destruct (default_loop f g (S i) rest (total + mx)) as [[i2 evs2] r2] eqn:D.
       inversion H; subst. apply IH in D. destruct D as [rr [E1 E2]].
@@ -90,7 +90,7 @@ Proof.
     set (amt := match next s with
                 | Some (_, nb) => if nb - off s <=? Zlength bb then nb - off s else Zlength bb
                 | None => Zlength bb end) in *.
-    set (mx := Z.min (g (gi s)) amt) in *.
+    set (mx := nested (fst (g (gi s))) (snd (g (gi s))) amt) in *.
     destruct (take mx bb) as [[chunk rest]|] eqn:T;
       [|inversion H; subst; exists bb; split; [reflexivity | discriminate]].
     pose proof (take_split _ _ _ _ T) as Hsp.
